@@ -30,6 +30,12 @@ def classify(c):
         # state level, depth 4: an entry whose only change flag sits on a side that has lost its id is put back into the
         # pending set when the OTHER side is (re-)assigned an id (_change_oid adds on `either side changed`)
         return "G17-pending-set-readmits-entry-whose-changed-side-has-no-id"
+    if c["property"] == "C11" and kind == "pending-forgotten-entry" and "scripts" not in job and c["sig"] == "update" and \
+            (job.get("cfg") or {}).get("oip") and (job.get("cfg") or {}).get("prefix"):
+        # state level, path-id local side, start state "linked pair + local-only entry": after the pair's remote half has been
+        # moved to the other entry, a rename event (prior id = the pair's local id) onto the other entry's id ousts that entry,
+        # which stays in the pending set with no id on either side - the state-level form of G18
+        return "G18-id-take-over-leaves-ghost-entry-in-pending-set"
     if c["property"] == "C11" and job.get("base") == "B3" and kind.startswith(("engine:pending", "reloaded:pending")):
         # id take-over on a path-id side (b removed, a renamed onto b) while the peer deletes/edits b: the ousted entry keeps
         # sitting in the pending set with no id on either side / without any change flag
